@@ -1,6 +1,6 @@
 (* Case type and checker of the scheduler correspondence run (evaluated by vm_compute on generated
    cases).  The result is a bit mask so that each property decides on its own observables. *)
-From PJ Require Import Base.Prelude Sched.Model Sched.Check Sched.Oracles.
+From PJ Require Import Base.Prelude Sched.Model Sched.Check Sched.Oracles Sched.WfIn.
 
 Record scase := {
   c_fwd : bool;
@@ -27,6 +27,7 @@ Definition check_case (c : scase) : nat :=
   let m := run (c_fwd c) cfg w in
   let o := c_obs c in
   (bit (negb (Nat.eqb (outcome_code m) (c_outcome c))) 1
+   + bit (negb (wfin_b w)) 4096
    + bit (Nat.leb 10 (c_outcome c)) 1024
    + match m with
      | Ok st =>
